@@ -1,77 +1,10 @@
-// Command vcheck runs one property monitor per invocation:
-//
-//	vcheck <ID> <quick|thorough> [--replay file]
-//	vcheck racepost <ID> <race-log-prefix> <child-exit-code>
-//	vcheck crashpost <ID> <tier> <child-output>
+// Command vcheck holds every registered property monitor; see package vcli.
 package main
 
-import (
-	"fmt"
-	"os"
-	"sort"
+import "verif/harness/vcli"
 
-	"verif/harness/mon"
-)
+func register(id, level string, fn vcli.CheckFn) { vcli.Register(id, level, fn) }
 
-type checkFn func(r *mon.Run, replay string)
+func parallel(n int, fn func(i int)) { vcli.Parallel(n, fn) }
 
-type checkDef struct {
-	level string
-	fn    checkFn
-}
-
-var registry = map[string]checkDef{}
-
-func register(id, level string, fn checkFn) { registry[id] = checkDef{level, fn} }
-
-func main() {
-	if len(os.Args) < 2 {
-		usage()
-	}
-	switch os.Args[1] {
-	case "racepost":
-		if len(os.Args) < 5 {
-			usage()
-		}
-		os.Exit(racePost(os.Args[2], os.Args[3], os.Args[4]))
-	case "crashpost":
-		if len(os.Args) < 5 {
-			usage()
-		}
-		os.Exit(crashPost(os.Args[2], os.Args[3], os.Args[4]))
-	case "list":
-		ids := make([]string, 0, len(registry))
-		for id := range registry {
-			ids = append(ids, id)
-		}
-		sort.Strings(ids)
-		for _, id := range ids {
-			fmt.Println(id, registry[id].level)
-		}
-		return
-	}
-	id := os.Args[1]
-	def, ok := registry[id]
-	if !ok {
-		fmt.Printf("INCONCLUSIVE no monitor registered for %s\n", id)
-		os.Exit(mon.ExitInconclusive)
-	}
-	tier := "quick"
-	if len(os.Args) > 2 {
-		tier = os.Args[2]
-	}
-	replay := ""
-	for i := 3; i+1 < len(os.Args); i++ {
-		if os.Args[i] == "--replay" {
-			replay = os.Args[i+1]
-		}
-	}
-	r := mon.Start(id, tier, def.level)
-	def.fn(r, replay)
-	r.Finish()
-}
-
-func usage() {
-	fmt.Fprintln(os.Stderr, "usage: vcheck <ID> <quick|thorough> [--replay file] | racepost <ID> <prefix> <rc> | crashpost <ID> <tier> <log>")
-	os.Exit(2)
-}
+func main() { vcli.Main() }
